@@ -228,14 +228,14 @@ fn main() {
 		PartSpec {
 			name: "restart-sampled",
 			rule: "pair / line / diamond worlds, generated payment flows with async persistence; manager snapshots at generated persistence points; 1-2 crashes at generated positions (second possibly during recovery) restarting a generated node from a generated snapshot lag and durable-or-landed monitors; then reconnect, resolve payments, mine to full resolution. Checked: deserialization succeeds, monitor-ahead channels are closed as OutdatedChannelManager and not resumed, revocation rules hold across restarts, every broadcast is consensus-valid, PaymentSent is truthful and never contradicted, a claim acknowledged to the recipient reaches PaymentSent at the sender. Non-trivial: HTLCs pending at the crash and the manager lagged a monitor or an async write was lost",
-			quick_cases: 1200,
+			quick_cases: 600,
 			thorough_cases: 60_000,
 			max_shrink: 300,
 		},
 		|| strat(60),
 		oracle,
 	);
-	let flows = if c.tier() == Tier::Thorough { 300 } else { 5 };
+	let flows = if c.tier() == Tier::Thorough { 300 } else { 3 };
 	let cases = enumerated_cases(c.args.seed, flows);
 	c.enumerate(
 		"restart-enumerated",
